@@ -371,12 +371,16 @@ pub fn search(tier: &str, seed: u64, s: &mut Search) {
             // layer area): retry on a 32x32 canvas; only a run that does not finish there is a hang.
             let job = render_job(svg.as_bytes(), w.min(32), h.min(32), ts);
             let out2 = wk.run(&job, timeout);
+            let hang_at = wk.last_hang.take();
             if !matches!(out2, Outcome::Answer(_)) {
                 *wk = Worker::spawn();
             }
             if out2 == Outcome::Timeout {
                 // name the per-pixel kernel whose window is not clamped to the canvas, if the document has one
                 let sig = if svg.contains("<feMorphology") { "slow:feMorphology-window-on-unclamped-region" } else if svg.contains("<feConvolveMatrix") { "slow:feConvolveMatrix" } else if svg.contains("<feTurbulence") && svg.contains("numOctaves") { "slow:feTurbulence-numOctaves-unbounded" } else { "hang:render" };
+                // an unnamed one: where it was executing when the budget ran out
+                let sig_owned = if sig == "hang:render" { format!("hang:render_@{}", hang_at.unwrap_or_else(|| "?".into())) } else { sig.to_string() };
+                let sig = sig_owned.as_str();
                 s.finding(sig, "rendering does not finish within 20 s even on a 32x32 canvas", &key);
             } else {
                 s.case("slow-but-bounded", &key, false);
